@@ -193,7 +193,13 @@ def oracle(op, out):
     else:
         if first.startswith("ok") and first != "ok " + hx(p["data"]):
             return f"{tag} block upload reported success with data that differs from the server's value"
-    if kind in ("lost", "late") and role is not None:
+    upseg = p["dir"] == "up" and role == "seg"
+    if kind == "lost" and upseg and not first.startswith("ok"):
+        # block upload: the client acknowledges what it has, the server repeats the rest (C13 single_loss_repaired)
+        return f"{tag} a lost segment of a block upload was not repaired: {first}"
+    if kind in ("lost", "late") and role is not None and not (upseg and kind == "late"):
+        # (a late segment of a block upload reaches the client together with the repetition it asked for: the
+        #  transfer is repaired or ends in whatever SDO error the surplus frame causes — checked above: never wrong data)
         sent = spans[0].split(",")
         if not first.startswith("ok") and role != "seg" and (answered + 1 >= len(sent) or sent[answered + 1] != ABORT_TIMEOUT):
             return (f"{tag} a response was lost and the transfer failed, but the client did not emit the time-out "
@@ -228,12 +234,12 @@ def signature(op, what):
         cls = "no-timeout-abort"
     elif "went unnoticed" in what:
         cls = "lost-unnoticed"
+    elif "was not repaired" in what:
+        cls = "not-repaired"
     elif "after the disturbed one" in what:
         cls = "next-transfer"
     else:
         cls = "other"
-    if d == "up" and role == "seg":
-        kind = "resync"          # every disturbance of the segment stream ends in the same re-synchronisation code
     if kind == "dupd":
         kind = "dup"
     return f"bdist:{d}:{role}:{kind}:{cls}"
@@ -256,7 +262,7 @@ COMMON = ["lost", "late", "dup", "dupd"]
 ABORTS = [0x05040000, 0x06090011, 0x08000000, 0, 0xFFFFFFFF, 0x06010002]
 
 
-def kinds_for(p, role, rng, last_client_frame_follows):
+def kinds_for(p, role, rng, last_client_frame_follows, at=0):
     idx, sub = p["idx"], p["sub"]
     mux = bytes([idx & 0xFF, idx >> 8, sub])
     ks = ["lost", "late", "dup"]
@@ -281,7 +287,10 @@ def kinds_for(p, role, rng, last_client_frame_follows):
     if role == "init":
         ks.append("mux")
     if role == "seg":
-        ks.append("stale:" + (b"\x03" + bytes(range(7))).hex())          # an old segment with another number
+        # an old segment frame in front of segment `at`; its number differs from the one the client waits for
+        # (a stale frame that carries exactly the expected number cannot be told from the real one)
+        expected = (at - 1) % 127 + 1
+        ks.append("stale:" + (bytes([3 if expected != 3 else 4]) + bytes(range(7))).hex())
     return ks
 
 
@@ -307,7 +316,7 @@ def gen_ops(tier, rng):
         for crc in ((1, 1), (0, 0)) if n <= 64 else ((1, 1),):
             configs.append(("down", n, blks, crc))
     for n in [1, 6, 7, 8, 14, 15, 30, 50] + ([889 + 20, 100, 300, 889 * 2 + 3] if thorough else [889 + 20]):
-        for crc in ((1, 1), (0, 0)) if n <= 50 else ((1, 1),):
+        for crc in ((1, 1), (0, 0)) if n <= 50 or n == 889 + 20 else ((1, 1),):
             configs.append(("up", n, [3], crc))
     follows_down = ["u;bd=r9:20", "d=h0102;bu", "bd=r11:9;u", "bu;d=h01020304050607080910"]
     follows_up = ["u;bu", "bu;d=h0102", "d=h010203040506070809;bu", "bd=r9:20;u"]
@@ -324,10 +333,14 @@ def gen_ops(tier, rng):
                          if 0 <= a < nresp)
         for at in ats:
             role = "init" if at == 0 else "end" if at == nresp - 1 else ("ack" if direction == "down" else "seg")
-            ks = kinds_for(p, role, rng, last_client_frame_follows=(at < nresp - 1))
+            ks = kinds_for(p, role, rng, last_client_frame_follows=(at < nresp - 1), at=at)
             if not thorough and n > 64 and len(ks) > 6:
                 ks = ks[:4] + rng.sample(ks[4:], 3)
             for kind in ks:
+                if direction == "up" and not cr and kind == "dupd" and (at - 1) % 127 == 0 and at + 127 < nresp - 1:
+                    # a duplicate of the first segment of a sub-block arriving after that sub-block's acknowledge
+                    # cannot be told from the first segment of the next one (ASSUMPTIONS); only with CRC
+                    continue
                 c += 1
                 fl = (follows_down if direction == "down" else follows_up)[c % 4]
                 yield fmt(p, at, kind, fl)
